@@ -552,3 +552,83 @@ Lemma rerun_hypotheses_instance :
   st_built_at ex_stored <> 0 /\ st_cancelled ex_stored = false /\
   length (bv_infos (st_value ex_stored)) = length [mkOnode false false (ex_info 10)].
 Proof. repeat split. discriminate. Qed.
+
+(* ---------- symlink commands ---------- *)
+
+Lemma symlink_wf_outputs s : symlink_wf s -> exists o, s_outputs s = [o].
+Proof.
+  unfold symlink_wf. destruct (s_outputs s) as [|o [|o2 r]]; cbn [length]; intros H; try discriminate H.
+  exists o. reflexivity.
+Qed.
+
+(* a loadable symlink command has a signature (no over-read) *)
+Theorem sdef_sig_tokens_defined s : symlink_wf s -> exists p, sdef_sig_tokens s = Some p.
+Proof.
+  intros H. destruct (symlink_wf_outputs s H) as [o Ho]. unfold sdef_sig_tokens. rewrite Ho. eexists. reflexivity.
+Qed.
+
+(* unique decoding: the tokens determine the declared output, the contents and the inputs *)
+Theorem sdef_sig_tokens_injective s1 s2 : symlink_wf s1 -> symlink_wf s2 ->
+  sdef_sig_tokens s1 = sdef_sig_tokens s2 -> symlink_relevant s1 = symlink_relevant s2.
+Proof.
+  intros W1 W2. destruct (symlink_wf_outputs s1 W1) as [o1 E1]. destruct (symlink_wf_outputs s2 W2) as [o2 E2].
+  unfold sdef_sig_tokens, symlink_relevant, symlink_sig_tokens. rewrite E1, E2. intros H.
+  assert (Ho : o1 = o2) by congruence.
+  assert (Hc : s_contents s1 = s_contents s2) by congruence.
+  assert (Hi : strs (s_inputs s1) = strs (s_inputs s2)) by congruence.
+  apply strs_inj in Hi. rewrite Ho, Hc, Hi. reflexivity.
+Qed.
+
+(* and nothing else: name, link-output-path and the repair flag do not take part *)
+Theorem sdef_sig_tokens_of_relevant s1 s2 :
+  symlink_relevant s1 = symlink_relevant s2 -> sdef_sig_tokens s1 = sdef_sig_tokens s2.
+Proof.
+  unfold symlink_relevant, sdef_sig_tokens. intros H.
+  assert (Ho : s_outputs s1 = s_outputs s2) by congruence.
+  assert (Hc : s_contents s1 = s_contents s2) by congruence.
+  assert (Hi : s_inputs s1 = s_inputs s2) by congruence.
+  rewrite Ho, Hc, Hi. reflexivity.
+Qed.
+
+Theorem sdef_sig_injective H0 HC : ideal_chain H0 HC ->
+  forall s1 s2, symlink_wf s1 -> symlink_wf s2 ->
+  sdef_sig H0 HC s1 = sdef_sig H0 HC s2 -> symlink_relevant s1 = symlink_relevant s2.
+Proof.
+  intros Hid s1 s2 W1 W2 H. apply sdef_sig_tokens_injective; try assumption.
+  destruct (sdef_sig_tokens_defined s1 W1) as [[n1 t1] E1]. destruct (sdef_sig_tokens_defined s2 W2) as [[n2 t2] E2].
+  unfold sdef_sig in H. rewrite E1, E2 in H. rewrite E1, E2.
+  assert (Hc : chain H0 HC n1 t1 = chain H0 HC n2 t2) by (unfold chain_p in H; cbn [fst snd] in H; congruence).
+  apply Hid in Hc as [Hn Ht]. rewrite Hn, Ht. reflexivity.
+Qed.
+
+(* renaming the declared output changes the tokens whatever link-output-path says *)
+Theorem sdef_change_output n i o1 o2 c l r : o1 <> o2 ->
+  sdef_sig_tokens (mkSdef n i [o1] c l r) <> sdef_sig_tokens (mkSdef n i [o2] c l r).
+Proof.
+  intros Hne H. apply sdef_sig_tokens_injective in H; try reflexivity.
+  unfold symlink_relevant in H. cbn [s_outputs s_contents s_inputs] in H. apply Hne. congruence.
+Qed.
+
+Theorem sdef_change_contents n i o c1 c2 l r : c1 <> c2 ->
+  sdef_sig_tokens (mkSdef n i [o] c1 l r) <> sdef_sig_tokens (mkSdef n i [o] c2 l r).
+Proof.
+  intros Hne H. apply sdef_sig_tokens_injective in H; try reflexivity.
+  unfold symlink_relevant in H. cbn [s_outputs s_contents s_inputs] in H. apply Hne. congruence.
+Qed.
+
+Theorem sdef_change_inputs n i1 i2 o c l r : i1 <> i2 ->
+  sdef_sig_tokens (mkSdef n i1 [o] c l r) <> sdef_sig_tokens (mkSdef n i2 [o] c l r).
+Proof.
+  intros Hne H. apply sdef_sig_tokens_injective in H; try reflexivity.
+  unfold symlink_relevant in H. cbn [s_outputs s_contents s_inputs] in H. apply Hne. congruence.
+Qed.
+
+(* the current code: link-output-path, the repair flag and the command's name are not hashed *)
+Theorem sdef_unhashed_parts n1 n2 i o c l1 l2 r1 r2 :
+  sdef_sig_tokens (mkSdef n1 i o c l1 r1) = sdef_sig_tokens (mkSdef n2 i o c l2 r2).
+Proof. apply sdef_sig_tokens_of_relevant. reflexivity. Qed.
+
+Lemma sdef_instance :
+  symlink_wf ex_sdef /\ sdef_sig_tokens ex_sdef = Some ([60;97;62], [TStr [116]; TStr [105]]) /\
+  sdef_sig_tokens (mkSdef [76] [] [] [116] [108] false) = None.
+Proof. repeat split. Qed.
